@@ -26,7 +26,7 @@ LEVEL_TEXT = (
 )
 
 GRAMMAR_MOD = "geneticengine.grammar.grammar"
-WALKER_NAMES = ("register_type", "collect_types", "reachability", "usable_grammar", "strip_annotations")
+WALKER_NAMES = ("register_type", "collect_types", "usable_grammar", "strip_annotations")
 
 
 def _reach_table_name(f: FunctionInfo) -> Optional[str]:
@@ -241,7 +241,7 @@ def walker_rule(ctx: Ctx, rid: str, only: tuple = ()) -> None:
                        True if ok else (None if und else False),
                        "" if ok else f"distance of {name} is {vals[0] if vals else '?'!r}, expected {want!r}: a wrapper level is skipped "
                                      f"(Annotated[list[T], ..] fields are reported one level too shallow in expansion-depthing mode)")
-    ctx.floor(rid, n, 9 if only else 40, "walker x nested-type interpretations")
+    ctx.floor(rid, n, 9 if only else 36, "walker x nested-type interpretations")
 
 
 def unfiltered_rule(ctx: Ctx, rid: str) -> None:
@@ -534,7 +534,8 @@ def run(ctx: Ctx) -> None:
     ctx.rule("C05.R2", "distance equations: OR forms (union, abstract) use min, AND forms (tuple, concrete) use max; monotone descent")
     ctx.rule("C05.R3", "base-type tables agree: every base type produced without consuming a level has distance 0")
     walker_rule(ctx, "C05.R1")
-    unfiltered_rule(ctx, "C05.R1")
+    from .grammodel import wrapper_rule
+    ctx.floor("C05.R1", wrapper_rule(ctx, "C05.R1"), 9, "nested wrapper forms (recursion)")
     polarity_rule(ctx, "C05.R2")
     rule_r3(ctx)
     ctx.assumptions += ["is_abstract / get_type_hints read the class declarations as the walkers assume (reflection is not analysed)"]
